@@ -50,7 +50,7 @@ def scenario(rng: random.Random) -> Dict[str, Any]:
         if share and svcs:
             s.server = svcs[0].server
         else:
-            s.server = "host%d.local." % i
+            s.server = R.spell(rng, "host%d" % i) + ".local."
         svcs.append(s)
     gap = rng.choice([0, 10, 300, 700, 990, 1000, 1010, 1500, 3000])
     nq = rng.choice([0, 1, 1, 2, 2, 3, 5])
